@@ -16,6 +16,18 @@ mod vshim {
         kani::cover!(true);
     }
 
+    /// "Control must not get here" inside a should_panic harness: `kani::should_panic` only demands that SOME
+    /// panic is reachable, so a harness that has to show that EVERY input panics calls this after the operation.
+    /// Under Kani it fails a non-panic (pointer) check, which makes a should_panic harness fail; natively it does
+    /// nothing (`#[should_panic]` already fails the test when nothing panicked).
+    #[cfg(kani)]
+    pub fn must_not_return() {
+        let p = 8usize as *const u8;
+        let _ = unsafe { core::ptr::read_volatile(p) };
+    }
+    #[cfg(not(kani))]
+    pub fn must_not_return() {}
+
     #[cfg(not(kani))]
     extern crate std;
     #[cfg(not(kani))]
@@ -103,4 +115,4 @@ mod vshim {
     pub fn cover() {}
 }
 #[allow(unused_imports)]
-use vshim::{any, assume, cover};
+use vshim::{any, assume, cover, must_not_return};
